@@ -6,9 +6,12 @@ SPEC_PART = dict(
              "flags EMPTY 4 / COMPACT 8 / OUT_OF_ORDER 16, mode byte = curMode | tgtType << 2, coupons value << 26 | slot, Hll4 low "
              "nibble = even slot with 15 = exception, Hll6 slot s at bit 6s, compact aux = auxCount coupons; no upstream files offline"],
     assumptions=[],
-    covers="hll: the translated constants are the specification's (c12_hll_layout_glue: serial version, family id, preamble ints, "
-           "flag masks, mode and type codes, key bits, AUX_TOKEN); PARTIAL: the conformance theorem spec_decode (serialize s) = abs s "
-           "is not proved for HLL, it is CHECKED on every image the crate emits. Tie: Spec/HllLayout.v hll_spec_decode (written from "
+    covers="hll: model_enc_conforms proved in full -- for every well-formed sketch and in particular every state reachable by "
+           "updates (all lg_k, types, modes) the independent decoder hll_spec_decode (Spec/HllLayout.v) applied to hll_serialize s "
+           "returns the sketch's abstract state: lg_k, type, mode, the coupon set (list / set) or the k register values read through "
+           "Hll4 nibbles + exception list / the Hll6 bit string / Hll8 bytes, cur_min, num_at_cur_min, out-of-order flag "
+           "(c12_hll_image_conforms(_of_stream), c12_hll_array4_image); the translated constants are the specification's "
+           "(c12_hll_layout_glue). Tie: Spec/HllLayout.v hll_spec_decode (written from "
            "the format description, independent of the model) applied to the crate's serialize() output must give exactly the Spec "
            "state of the stream: lg_k, type, mode as a function of the number of distinct coupons, the coupon set / the per-slot "
            "maxima, cur_min = smallest register, num_at_cur_min, the exceptions, the COMPACT flag on array images (repaired defect "
